@@ -11,8 +11,8 @@ THOROUGH = os.environ.get("VERIF_TIER", "quick") == "thorough"
 REPS = [0, 5, 27, 70, 101, 143, 190, 233, 286, 311, 350, 383]
 NREP = len(REPS)
 BMAX = 2 if THOROUGH else 1          # quick: serialization setting / marker / namespace depth derived from the class code
-NSMAX = 3 if THOROUGH else 1
-NB2 = NC if THOROUGH else NREP       # quick: the second class also ranges over the representatives
+NSMAX = 1                            # namespace depth derived from the class code in both tiers
+NB2 = 128 if THOROUGH else NREP      # thorough: every third class shape as second class; quick: the representatives
 
 
 def _fail(**kw):
@@ -53,8 +53,9 @@ def c05_one_class(code: int, boost: int, ser: int, nsdepth: int) -> bool:
     """
     code, boost, ser, nsdepth = pick(code, 0, NC), pick(boost, 0, 2), pick(ser, 0, 2), pick(nsdepth, 0, 3)
     with concrete():
+        nsdepth = code % 3
         if not THOROUGH:
-            boost, ser, nsdepth = (code // 2) % 2, (code // 6) % 2, code % 3
+            boost, ser = (code // 2) % 2, (code // 6) % 2
         ok = check([code], (code + nsdepth) % 4, nsdepth, boost, ser)
     reached({"code": code, "boost": boost, "ser": ser, "nsdepth": nsdepth} if (not ok or code == 101) else None)
     return ok
@@ -63,13 +64,15 @@ def c05_one_class(code: int, boost: int, ser: int, nsdepth: int) -> bool:
 def c05_two_classes(a: int, b: int, fshape: int, boost: int) -> bool:
     """
     Two classes in sequence (the second may derive from the first): every id of the second is shifted by the first.
-    pre: 0 <= a < NREP and 0 <= b < NB2 and 0 <= fshape < (4 if THOROUGH else 1) and 0 <= boost < BMAX
+    pre: 0 <= a < NREP and 0 <= b < NB2 and 0 <= fshape < 1 and 0 <= boost < 1
     post: _
     """
     a, b, fshape, boost = pick(a, 0, NREP), pick(b, 0, NC), pick(fshape, 0, 4), pick(boost, 0, 2)
     with concrete():
         if not THOROUGH:
             b, boost, fshape = REPS[(b + 5) % NREP], (a + b) % 2, (a + 3 * b) % 4
+        else:
+            b, boost, fshape = b * 3 + a % 3, (a + b) % 2, (a + 3 * b) % 4
         ok = check([REPS[a], b], fshape, 1, boost, 3 if boost else 0)
     reached({"a": REPS[a], "b": b, "fshape": fshape, "boost": boost} if (not ok or (a == 3 and b == 77)) else None)
     return ok
@@ -78,13 +81,14 @@ def c05_two_classes(a: int, b: int, fshape: int, boost: int) -> bool:
 def c05_three_classes(a: int, b: int, c: int, fshape: int) -> bool:
     """
     Three classes and free functions (overloaded, defaulted, non-consecutive overloads) in one namespace.
-    pre: 0 <= a < NREP and 0 <= b < NREP and 0 <= c < (NREP if THOROUGH else 1) and 0 <= fshape < (4 if THOROUGH else 1)
+    pre: 0 <= a < NREP and 0 <= b < NREP and 0 <= c < (NREP if THOROUGH else 1) and 0 <= fshape < 1
     post: _
     """
     a, b, c, fshape = pick(a, 0, NREP), pick(b, 0, NREP), pick(c, 0, NREP), pick(fshape, 0, 4)
     with concrete():
         if not THOROUGH:
-            c, fshape = (5 + a + 7 * b) % NREP, (a + 2 * b) % 4
+            c = (5 + a + 7 * b) % NREP
+        fshape = (a + 2 * b + c) % 4
         ok = check([REPS[a], REPS[b], REPS[c]], fshape, (a + b) % 3, (a + c) % 2, 5)
     reached({"a": REPS[a], "b": REPS[b], "c": REPS[c], "fshape": fshape} if not ok else None)
     return ok
